@@ -57,6 +57,11 @@ def remap_curie_prefixes(converter: Converter, remapping: Mapping[str, str]) -> 
                 return r
         return None
 
+    # prefixes that are handed over to another record by a remapping that can be applied
+    handed_over = {
+        new_prefix for old, new_prefix in ordering if old in converter.synonym_to_prefix
+    }
+
     modified_records = []
     for old, new_prefix in ordering:
         _old = converter.synonym_to_prefix.get(old)
@@ -78,9 +83,10 @@ def remap_curie_prefixes(converter: Converter, remapping: Mapping[str, str]) -> 
                 new_prefix,
                 new_record,
             )
-        elif old in intersection:
+        elif old in intersection and old in handed_over:
+            # another applicable remapping takes over ``old``, everything else is kept
             record.prefix_synonyms = sorted(
-                set(record.prefix_synonyms).difference({old, new_prefix})
+                set(record.prefix_synonyms).union({record.prefix}).difference({old, new_prefix})
             )
             record.prefix = new_prefix
         else:
